@@ -22,6 +22,30 @@ func lenOf(f *types.Var, base ssa.Value) VPat {
 	}
 }
 
+// isLoopOrLookupCond: loop bounds, ok-results of queue/map lookups, serial-range tests.
+func isLoopOrLookupCond(c *RuleCtx, v ssa.Value) bool {
+	switch x := v.(type) {
+	case *ssa.Extract:
+		return true // ok of get/pop/lookup/next
+	case *ssa.Call:
+		if sc := x.Call.StaticCallee(); sc != nil && isSnaHelper(c.P.FuncName(sc)) {
+			return true
+		}
+	case *ssa.BinOp:
+		if _, isPhi := unconv(x.X).(*ssa.Phi); isPhi {
+			return true
+		}
+		if b2, ok := unconv(x.X).(*ssa.BinOp); ok {
+			if _, isPhi := unconv(b2.X).(*ssa.Phi); isPhi {
+				return true
+			}
+		}
+	case *ssa.Phi:
+		return true
+	}
+	return false
+}
+
 func init() {
 	register(&Rule{ID: "C15.R1", Props: []string{"C15"}, Engine: "E2",
 		Title:   "the stream's buffered amount has exactly three writers: +len(payload) on write, −len on a failed send, −released (floored at 0) on acknowledgement",
@@ -181,6 +205,33 @@ func init() {
 				}
 			})
 			c.Check(n == 4, "count-once", c.P.Pos(psa.Pos()), "all 4 per-stream accumulations are dominated by !chunk.acked", fmt.Sprintf("%d accumulation sites", n))
+			// every newly acknowledged chunk is counted: the only chunk-dependent condition guarding an
+			// accumulation is !acked (abandoned chunks are popped too and must be released)
+			si := c.field("chunkPayloadData", "streamIdentifier")
+			ksx := keyer{}
+			forEachInstr(psa, func(in ssa.Instruction) {
+				mu, ok := in.(*ssa.MapUpdate)
+				if !ok {
+					return
+				}
+				if _, isMake := mu.Map.(*ssa.MakeMap); !isMake {
+					return
+				}
+				var extra []string
+				for _, f := range DomFacts(in.Block()) {
+					lf, _ := loadedField(f.Cond)
+					switch {
+					case lf != nil && lf.Name() == "acked":
+					case isLoopOrLookupCond(c, f.Cond):
+					default:
+						extra = append(extra, fmt.Sprintf("%s=%v", shortValue(c.P, f.Cond), f.Taken))
+					}
+				}
+				c.Check(len(extra) == 0, ksx.key("count-every-acked-chunk"), c.Pos(in), "guarded only by !acked (and loop / lookup conditions)",
+					"an additional condition keeps some acknowledged chunks from being released to their stream: "+strings.Join(extra, ", "))
+				// key is the chunk's stream identifier
+				c.Check(IsLoadOf(si)(mu.Key), ksx.key("count-keyed-by-stream"), c.Pos(in), "accumulated under chunk.streamIdentifier", "bytes accumulated under a key other than the chunk's stream identifier")
+			})
 			mk := c.Fn("payloadQueue.markAsAcked")
 			nb := c.field("payloadQueue", "nBytes")
 			okA, okE, okN := false, false, false
@@ -385,5 +436,30 @@ func init() {
 				}
 			}
 			c.Check(okAll, "every-stream-notified", c.P.Pos(pa.Pos()), "onBufferReleased is called for every entry of bytesAckedPerStream", "not every stream with acknowledged bytes is notified")
+			// each stream is released by its own share: s = a.streams[k], amount = v of the same map iteration
+			streamsF := c.field("Association", "streams")
+			for _, oc := range callsIn(pa, obr) {
+				amt, isEx := callArg(oc, 1).(*ssa.Extract)
+				okShare := false
+				if isEx && amt.Index == 2 {
+					if nx, isNext := amt.Tuple.(*ssa.Next); isNext {
+						if rg, isRg := nx.Iter.(*ssa.Range); isRg {
+							if src, ok := rg.X.(*ssa.Extract); ok && IsCallOf(c.Fn("Association.processSelectiveAck"))(src.Tuple) && src.Index == 0 {
+								// receiver: lookup in a.streams with the key of the same Next
+								recv := callArg(oc, 0)
+								if rex, ok := recv.(*ssa.Extract); ok {
+									if lk, ok := rex.Tuple.(*ssa.Lookup); ok && IsLoadOf(streamsF)(lk.X) {
+										if kx, ok := lk.Index.(*ssa.Extract); ok && kx.Tuple == ssa.Value(nx) && kx.Index == 1 {
+											okShare = true
+										}
+									}
+								}
+							}
+						}
+					}
+				}
+				c.Check(okShare, "release-own-share", c.Pos(oc), "streams[k].onBufferReleased(v) with k, v from the same bytesAckedPerStream entry",
+					"a stream is released by an amount that is not its own entry of bytesAckedPerStream (e.g. the SACK total): per-stream figures stop adding up and the low-threshold callback fires at the wrong time")
+			}
 		}})
 }
